@@ -6,13 +6,15 @@ CHECKS = {}
 
 CHECKS["C14"] = {
     "jobs": {
-        "quick": [{"pkg": "internal/gtpv1", "entries": ["ZZ_C14_Quick"], "witnesses": 6}],
-        "thorough": [{"pkg": "internal/gtpv1", "entries": ["ZZ_C14_Quick", "ZZ_C14_Thorough"], "witnesses": 16}],
+        "quick": [{"pkg": "internal/gtpv1", "entries": ["ZZ_C14_Quick"], "witnesses": 6},
+                  {"pkg": "internal/forwarder", "entries": ["ZZ_C14_WriteSequence"], "witnesses": 6, "max_paths": 200000}],
+        "thorough": [{"pkg": "internal/gtpv1", "entries": ["ZZ_C14_Quick", "ZZ_C14_Thorough"], "witnesses": 16},
+                     {"pkg": "internal/forwarder", "entries": ["ZZ_C14_WriteSequence"], "witnesses": 12, "max_paths": 2000000}],
     },
-    "covers": {"quick": ["ZZ_C14_Quick:C14.done"], "thorough": ["ZZ_C14_Quick:C14.done", "ZZ_C14_Thorough:C14.done"]},
+    "covers": {"quick": ["ZZ_C14_Quick:C14.done", "ZZ_C14_WriteSequence:C14.write.done"], "thorough": ["ZZ_C14_Quick:C14.done", "ZZ_C14_Thorough:C14.done", "ZZ_C14_WriteSequence:C14.write.done"]},
     "bounds": {
-        "quick": "payload length 0..16, with/without PDU session container; QFI (assumed < 64), PDU type (< 16), TEID (32 bit) and every payload byte symbolic",
-        "thorough": "payload length 0..64 plus 1400 and 1500, with/without extension; same symbolic inputs",
+        "quick": "payload length 0..16, with/without PDU session container; QFI (assumed < 64), PDU type (< 16), TEID (32 bit) and every payload byte symbolic; Gtp5g.WritePacket called twice on one driver object with payload lengths 0..5 each, with/without QFI, every datagram checked on its own",
+        "thorough": "payload length 0..64 plus 1400 and 1500, with/without extension; same symbolic inputs; three WritePacket calls in a row",
     },
     "outside": "flag combinations other than 0x34; payloads above 65527 bytes (length field wraps); more than one extension header",
     "assumptions": ["QFI < 64 and PDU type < 16 (the ranges the property quantifies over)",
@@ -98,11 +100,11 @@ CHECKS["C05"] = {
         "quick": [{"pkg": "internal/pfcp", "entries": ["ZZ_C05_*"], "witnesses": 3, "max_paths": 200000}],
         "thorough": [{"pkg": "internal/pfcp", "entries": ["ZZ_C05_*"], "witnesses": 8, "max_paths": 2000000}],
     },
-    "covers": {"all": ["ZZ_C05_Modify:C05.mod.done", "ZZ_C05_Delete:C05.del.done", "ZZ_C05_Assoc:C05.assoc.done", "ZZ_C05_ReportRsp:C05.reportrsp.done",
+    "covers": {"all": ["ZZ_C05_DeleteReuseReassoc:C05.reuse2.ended-by-seid0", "ZZ_C05_Modify:C05.mod.done", "ZZ_C05_Delete:C05.del.done", "ZZ_C05_Assoc:C05.assoc.done", "ZZ_C05_ReportRsp:C05.reportrsp.done",
                        "ZZ_C05_Establish:C05.est.done", "ZZ_C05_Reports:C05.reports.done", "ZZ_C05_Takeover:C05.takeover.done",
                        "ZZ_C05_DeleteReuseReassoc:C05.reuse2.done"]},
     "bounds": {
-        "quick": "frame check around one handler step: bystander session B (rules of all five kinds, one buffered packet, UR-SEQN 1) and acting session A on the same or the other node whose five rule ids and CP SEID are symbolic and may equal B's; steps: Modification with one Create/Update/Remove/Query IE of any kind and symbolic id, Deletion followed by SEID reuse (the new session then buffers and pops a packet of its own under A's PDR id), Association Setup of either node, SEID-0 report response, Establishment, kernel buffer/usage notification, takeover followed by re-association of any of three node ids; the two nodes are on different hosts or on one host with different source ports",
+        "quick": "frame check around one handler step: bystander session B (rules of all five kinds, one buffered packet, UR-SEQN 1) and acting session A on the same or the other node whose five rule ids and CP SEID are symbolic and may equal B's; steps: Modification with one Create/Update/Remove/Query IE of any kind and symbolic id, Deletion followed by SEID reuse (the new session then buffers and pops a packet of its own under A's PDR id), Association Setup of either node, SEID-0 report response, Establishment, kernel buffer/usage notification, takeover followed by re-association of any of three node ids; the two nodes are on different hosts or on one host with different source ports; in the delete+reuse+re-association history the first session ends by a Deletion Request or by a SEID-0 report response",
         "thorough": "same (the single-step bound is already complete over ids and SEIDs)",
     },
     "outside": "more than two sessions / two nodes; multi-step histories other than takeover+re-association and delete+reuse; B and A sharing both CP SEID and peer (then 'the session the report was sent for' is not determined by the message)",
@@ -114,9 +116,9 @@ CHECKS["C11"] = {
         "quick": [{"pkg": "internal/pfcp", "entries": ["ZZ_C11_*"], "witnesses": 3, "max_paths": 400000, "budget_s": 600}],
         "thorough": [{"pkg": "internal/pfcp", "entries": ["ZZ_C11_*"], "witnesses": 8, "max_paths": 8000000, "budget_s": 10800}],
     },
-    "covers": {"all": ["ZZ_C11_History:C11.hist.done", "ZZ_C11_History:C11.report-seen", "ZZ_C11_History:C11.recreated", "ZZ_C11_TwoSessions:C11.two.done"]},
+    "covers": {"all": ["ZZ_C11_MixedBatch:C11.mixed.done", "ZZ_C11_History:C11.hist.done", "ZZ_C11_History:C11.report-seen", "ZZ_C11_History:C11.recreated", "ZZ_C11_TwoSessions:C11.two.done"]},
     "bounds": {
-        "quick": "histories of 3 steps over one session with <= 2 URRs (URR 1 starting at an arbitrary symbolic UR-SEQN, referenced by PDR 1): kernel/periodic notification with 1..2 reports naming arbitrary URR ids, Query/Update/Remove URR with symbolic id, Create URR, Remove PDR, session deletion; the model data plane returns 0..2 reports per query/update and 1..2 per removal; plus two sessions with equal URR ids for independence",
+        "quick": "histories of 3 steps over one session with <= 2 URRs (URR 1 starting at an arbitrary symbolic UR-SEQN, referenced by PDR 1): kernel/periodic notification with 1..2 reports naming arbitrary URR ids, Query/Update/Remove URR with symbolic id, Create URR, Remove PDR, session deletion; the model data plane returns 0..2 reports per query/update and 1..2 per removal; plus two sessions with equal URR ids for independence; plus batches that mix usage reports with a downlink-data report (any action word, empty or one-octet packet) in three positions, framed by plain reports",
         "thorough": "same with 4 steps",
     },
     "outside": "longer histories; more than 2 URRs per session; remove failures",
@@ -128,11 +130,11 @@ CHECKS["C08"] = {
         "quick": [{"pkg": "internal/pfcp", "entries": ["ZZ_C08_*"], "witnesses": 4, "max_paths": 200000}],
         "thorough": [{"pkg": "internal/pfcp", "entries": ["ZZ_C08_*"], "witnesses": 8, "max_paths": 2000000}],
     },
-    "covers": {"all": ["ZZ_C08_Heartbeat:C08.hb.done", "ZZ_C08_AssocNoNodeID:C08.assoc-nonode.done", "ZZ_C08_Establish:C08.est.done",
+    "covers": {"all": ["ZZ_C08_SessionLevel:C08.sess.with-cp-fseid", "ZZ_C08_Heartbeat:C08.hb.done", "ZZ_C08_AssocNoNodeID:C08.assoc-nonode.done", "ZZ_C08_Establish:C08.est.done",
                        "ZZ_C08_Establish:C08.est.early-return", "ZZ_C08_SessionLevel:C08.sess.live", "ZZ_C08_SessionLevel:C08.sess.notfound",
                        "ZZ_C08_SessionLevel:C08.sess.bad-nodeid", "ZZ_C08_SessionLevel:C08.sess.ended-before", "ZZ_C08_Retransmission:C08.rtx.done"]},
     "bounds": {
-        "quick": "one or two requests per run: Heartbeat + Association Setup (either peer), Association Setup without Node ID, Establishment (known/unknown node, with/without Node ID and CP F-SEID, 0..2 Create PDRs each with/without a UE IPv4 address, symbolic PDR ids and CP SEID) followed by a Modification to the returned UP SEID, Modification/Deletion/Modification-with-undecodable-Node-ID addressed by an unconstrained 64-bit header SEID from either peer, with the session alive, already deleted, or dropped by a re-association of its node; sequence numbers symbolic 24 bit; start instant 2026-10-01",
+        "quick": "one or two requests per run: Heartbeat + Association Setup (either peer), Association Setup without Node ID, Establishment (known/unknown node, with/without Node ID, CP F-SEID present / absent / present but undecodable (truncated, empty), 0..2 Create PDRs each with/without a UE IPv4 address, symbolic PDR ids and CP SEID) followed by a Modification to the returned UP SEID, Modification/Deletion/Modification-with-undecodable-Node-ID addressed by an unconstrained 64-bit header SEID from either peer, with the session alive, already deleted, or dropped by a re-association of its node; a Modification may carry a CP F-SEID IE with another SEID (the response and the following Deletion response must then name the same SEID, one of the two); sequence numbers symbolic 24 bit; start instant 2026-10-01",
         "thorough": "same with three start instants (NTP second 1, 2026-10-01, last second of NTP era 0)",
     },
     "outside": "FQDN / IPv6 node ids, UE IPv6 addresses, symbolic UE addresses (they pass through text formatting), more than two requests per run",
@@ -245,8 +247,8 @@ CHECKS["C15"] = {
         "thorough": [{"pkg": "internal/forwarder/perio", "entries": ["ZZ_C15_*"], "witnesses": 6, "max_paths": 4000000, "budget_s": 3000},
                      {"pkg": "internal/forwarder", "entries": ["ZZ_C15_*"], "witnesses": 3, "max_paths": 100000, "budget_s": 600}],
     },
-    "covers": {"all": ["ZZ_C15_Sets:C15.done", "ZZ_C15_Sets:C15.tick.live", "ZZ_C15_Sets:C15.tick.stale", "ZZ_C15_Sets:C15.close", "ZZ_C15_Batch:C15.batch.done"]},
-    "bounds": {"quick": "the real perio.Server.Serve and ticker goroutines as coroutines; 5 events, each ADD (3 (SEID,URR) pairs x 2 periods), DEL (any pair, registered or not), a tick of either period (live or stale) or CLOSE, in every order; batching: psQueryURR/queryMultiURR with the real per-message limit (56) at 1, 55, 56, 57, 112, 113 URRs over 3 SEIDs (concrete ids; every request decoded and answered by the simulated kernel)",
+    "covers": {"all": ["ZZ_C15_RemoveUnregisters:C15.remove.done", "ZZ_C15_Sets:C15.done", "ZZ_C15_Sets:C15.tick.live", "ZZ_C15_Sets:C15.tick.stale", "ZZ_C15_Sets:C15.close", "ZZ_C15_Batch:C15.batch.done"]},
+    "bounds": {"quick": "the real perio.Server.Serve and ticker goroutines as coroutines; 5 events, each ADD (3 (SEID,URR) pairs x 2 periods), DEL (any pair, registered or not), a tick of either period (live or stale) or CLOSE, in every order; batching: psQueryURR/queryMultiURR with the real per-message limit (56) at 1, 55, 56, 57, 112, 113 URRs over 3 SEIDs (concrete ids; every request decoded and answered by the simulated kernel); Gtp5g.RemoveURR with the kernel answering a report, nothing, or ENOENT: the DEL event is posted in every case",
                "thorough": "same with 6 events"},
     "outside": "real tickers (ticks are injected as the TIMEOUT events the ticker goroutine sends); more than 3 URRs / 2 periods in the set harness; a URR registered under two periods at once (excluded by the statement)",
     "assumptions": FWD_ASSUME + ["goroutines are cooperative coroutines; Serve runs to quiescence after every injected event"],
@@ -324,10 +326,10 @@ CHECKS["C07"] = {
         "quick": [{"pkg": "internal/pfcp", "entries": ["ZZ_C07_*"], "witnesses": 4, "max_paths": 400000, "budget_s": 300, "max_concretize": 1024}],
         "thorough": [{"pkg": "internal/pfcp", "entries": ["ZZ_C07_*"], "witnesses": 8, "max_paths": 4000000, "budget_s": 3000, "max_concretize": 4096}],
     },
-    "covers": {"all": ["ZZ_C07_SweepEmpty:C07.sweep.done", "ZZ_C07_SweepGtp5g:C07.sweep.done", "ZZ_C07_RawAnyEmpty:C07.raw.done", "ZZ_C07_RawAnyGtp5g:C07.raw.done",
+    "covers": {"all": ["ZZ_C07_HeaderSEIDGtp5g:C07.seid.done", "ZZ_C07_HeaderSEIDEmpty:C07.seid.done", "ZZ_C07_SweepEmpty:C07.sweep.done", "ZZ_C07_SweepGtp5g:C07.sweep.done", "ZZ_C07_RawAnyEmpty:C07.raw.done", "ZZ_C07_RawAnyGtp5g:C07.raw.done",
                        "ZZ_C07_RawHandledEmpty:C07.raw.done", "ZZ_C07_RawHandledGtp5g:C07.raw.done",
                        "ZZ_C07_MissingEmpty:C07.missing.done", "ZZ_C07_MissingGtp5g:C07.missing.done"]},
-    "bounds": {"quick": "(a) envelope: after a valid prefix (association, a bystander session, a second session created and deleted; for the dispatched-type entries also a fresh server with nothing associated) ONE datagram of n fully symbolic octets from the associated or from an unknown peer goes through the real receive path (rcvCh -> go-pfcp message.Parse with its header, message and IE decoders -> transactions -> dispatcher -> handlers -> driver): every n in 0..12 with all 256 message types, and every n in 8..14 with the message type fixed to one of the six that go-upf dispatches (1, 5, 50, 52, 54, 57); afterwards a Heartbeat from the other peer must be answered with the right type and sequence number and the bystander must be intact unless the datagram is a Modification/Deletion carrying its SEID or an Association Setup. "
+    "bounds": {"quick": "(c) header SEID through the loop: Modification, Deletion and a Session Report Response to an outstanding report with an unconstrained 64-bit header SEID from either peer, both drivers. (a) envelope: after a valid prefix (association, a bystander session, a second session created and deleted; for the dispatched-type entries also a fresh server with nothing associated) ONE datagram of n fully symbolic octets from the associated or from an unknown peer goes through the real receive path (rcvCh -> go-pfcp message.Parse with its header, message and IE decoders -> transactions -> dispatcher -> handlers -> driver): every n in 0..12 with all 256 message types, and every n in 8..14 with the message type fixed to one of the six that go-upf dispatches (1, 5, 50, 52, 54, 57); afterwards a Heartbeat from the other peer must be answered with the right type and sequence number and the bystander must be intact unless the datagram is a Modification/Deletion carrying its SEID or an Association Setup. "
                         "(d) missing IEs: a complete Establishment (Node ID, CP F-SEID, Create FAR with Forwarding Parameters, Create QER/URR/BAR, Create PDR with PDI incl. SDF filter), a Modification (Update/Query/Create/Remove groups) after a complete establishment, and an Association Setup, from which the solver removes every choice of up to 2 nodes of the IE tree (top-level IEs, whole groups, children, nested groups and their children: 33 / 31 / 3 nodes), both drivers. "
                         "(b) IE payload sweep through the real event loop (PfcpServer.main + receiver as coroutines, marshalled datagrams) after an association and a bystander session: for each of 39 leaf IE types that go-upf or the gtp5g driver decodes (Node ID, F-SEID, and the children of Create/Update PDR, PDI, FAR, Forwarding Parameters, QER, URR, BAR) one IE with a symbolic payload of every length 0..nominal+2 inside an otherwise well-formed Establishment and a following Modification, with the no-op driver and with the gtp5g driver on the simulated kernel; afterwards a Heartbeat must be answered and the bystander intact. SDF Filter: flow-description octets ASCII; FD length field <= payload length or >= 256",
                "thorough": "(d) up to 3 removed nodes; (a) every n in 0..16 with all message types, every n in 8..18 with a dispatched type, and for n <= 14 also the same octets delivered twice (retransmission of a possibly malformed request); (b) same with the SDF Filter FD length field unconstrained (every feasible value up to the buffer capacity is a path)"},
